@@ -1317,6 +1317,8 @@ def _make_builtin_module(it, full):
         A['path'] = pathmod
         A['sep'] = '/'
         A['environ'] = Opaque('os.environ')
+        for n in ('getcwd', 'listdir', 'stat', 'readlink'):
+            A[n] = Builtin('os.' + n, (lambda nm: lambda it2, a, k: _lib_call(it2, 'os.' + nm, a, k))(n))
     elif full == 'collections':
         A['ChainMap'] = Builtin('collections.ChainMap', lambda it2, a, k: _lib_call(it2, 'collections.ChainMap', a, k))
         A['OrderedDict'] = it.builtins['dict'] if hasattr(it, 'builtins') and it.builtins else None
